@@ -669,7 +669,50 @@ func c9rerunRun(a []string) string {
 	return fmt.Sprintf("sub=%d,unsub=%d,live=%d", s1, u1, nd.ledger.inner.VerifLiveSubscriptions(sid))
 }
 
+// C10.ctor <kind> <variant>   the constructor alone, on every way it can go wrong after it took the lock:
+//   noshare (share file missing) | badshare (file is not JSON) | emptyshare (empty file), and for FROST signing with a
+//   good share a tweak that is not hex (tweakhex), is hex of the wrong length (tweaklen), or is 32 bytes that are not a
+//   scalar below the group order (tweakorder). No process object exists after a failed constructor, so nothing will
+//   ever Stop it: the lock must be balanced right there. A constructor that succeeds is stopped by the harness.
+//   => ctorerr;L=… | ctorok;L=… (after Stop)
+func c10ctor(a []string) string {
+	kind, variant := a[0], a[1]
+	w := newC10World(1, strings.HasPrefix(variant, "tweak"))
+	defer w.close()
+	nd := w.nodes[0]
+	for _, f := range []string{"0.keyshare", "0-frost.keyshare"} {
+		switch variant {
+		case "badshare":
+			_ = os.WriteFile(w.dir+"/"+f, []byte("{\"Key\": [1,2"), 0o600)
+		case "emptyshare":
+			_ = os.WriteFile(w.dir+"/"+f, []byte{}, 0o600)
+		}
+	}
+	sid := "ctor1"
+	var proc tss.TssProcess
+	var cnt *lockCounter
+	ok := false
+	if kind == "fsigning" && strings.HasPrefix(variant, "tweak") {
+		tweak := map[string]string{
+			"tweakhex":   "zz" + c10tweak[2:],
+			"tweaklen":   c10tweak[:40],
+			"tweakorder": "fffffffffffffffffffffffffffffffebaaedce6af48a03bbfd25e8cd0364141",
+		}[variant]
+		msg, _ := hex.DecodeString("4d657373616765")
+		p, err := fsigning.NewSigning(1, msg, tweak, sid, sid, nd.host, nd.ledger, nd.fr)
+		proc, cnt, ok = p, nd.fr.c, err == nil
+	} else {
+		proc, cnt, ok = w.mk(kind, nd, sid, 1)
+	}
+	if !ok {
+		return "ctorerr;" + cnt.String()
+	}
+	proc.Stop()
+	return "ctorok;" + cnt.String()
+}
+
 func init() {
+	ops["C10.ctor"] = c10ctor
 	ops["C09.rerun"] = c9rerun
 	ops["C10.full"] = c10full
 	ops["C10.stuck"] = c10stuck
@@ -711,6 +754,15 @@ func genC10(g *G) {
 			}
 			g.Emit("cell", k, oc)
 		}
+	}
+	// constructor-only cells: every kind x every way the share can be unusable, and the bad tweaks of FROST signing
+	for _, k := range c10kinds {
+		for _, v := range []string{"noshare", "badshare", "emptyshare"} {
+			g.Emit("ctor", k, v)
+		}
+	}
+	for _, v := range []string{"tweakhex", "tweaklen", "tweakorder"} {
+		g.Emit("ctor", "fsigning", v)
 	}
 	// sequences of sessions sharing the stores (kinds on the ECDSA store and on the FROST store interleaved)
 	seqKinds := []string{"ekeygen", "fkeygen", "eresharing", "fresharing", "esigning", "fsigning"}
